@@ -187,7 +187,7 @@ proximal, `Const(y) + ProxL1 ∘ (Id − Const(y))`, as a tree whose leaf is the
 `ProximalL1._call`, satisfies the hypotheses over ℤ. -/
 example : AllOK (K := Int)
     (.vecsum (.comp (.leaf (Leaf.ofProg (fun _ _ => 0) (prog intFns intPar (.l1 false false))
-        (fun _ _ => 0))) (.vecsum (.leaf (scaleLeaf 1)) (fun _ => -3))) (fun _ => 3)) :=
+        (fun _ _ => 0))) (.vecsum (.leaf (scalingLeaf 1)) (fun _ => -3))) (fun _ => 3)) :=
   ⟨C10.prog_leaf_ok intFns (by intro b; cases b <;> simp [intFns]) (by intro a; simp) intPar _ _ _,
    C03.scale_leaf_ok 1⟩
 
